@@ -21,7 +21,7 @@ func init() {
 	Runners["C05"] = queueRunner(RunC05)
 	Runners["C17"] = queueRunner(RunC17)
 	harness.Specs["C05"] = &harness.PropSpec{
-		ID: "C05", Test: "TestC05", Kind: "queue", Level: "exploration",
+		ID: "C05", Test: "TestC05", Kind: "queue", Level: "exploration", FuzzTargets: []string{"FuzzC05"}, FuzzSeconds: 180,
 		Quick: 16000, Thorough: 1000000,
 		Rule: "generated queue programs (Write chunks / Next / Flush, reader sections Begin..Next/Read(partial)..Done, ACK, queue and file reopen, drain probes " +
 			"by a second queue object) on page sizes 1024/4096 and write buffers 0/1 page/8 pages/64 KiB, executed against a slice-of-events model; event sizes " +
